@@ -432,9 +432,16 @@ func randomScript(maxActs int) func(r *runner, rng *emit.Rand) {
 				if r.learnerParked() {
 					continue
 				}
-				n := r.local().Height() + 1 + uint64(rng.Intn(30))
-				if h := r.f.At(n); h != nil {
-					r.headLearn(h)
+				switch rng.Intn(4) {
+				case 0: // the trusted getter answers with something at or below the subjective head: not adopted
+					l := r.local()
+					n := r.f.Tail + uint64(rng.Intn(int(l.Height()-r.f.Tail)+1))
+					r.headLearn(&vhdr.Header{Chain: "a", H: n, T: l.T, Prev: []byte("stale-head"), Nonce: rng.U64()})
+				default:
+					n := r.local().Height() + 1 + uint64(rng.Intn(30))
+					if h := r.f.At(n); h != nil {
+						r.headLearn(h)
+					}
 				}
 			}
 			if r.nacts == 0 && rng.Chance(5) {
